@@ -135,6 +135,8 @@ class SymEnumerate:
         self.seq, self.start = seq, start
 
 
+CLASS_OVERRIDES = {}      # (class qualname, attribute) -> value : documented assumptions about class state
+qn_module = {}
 BUILTIN_EXC = {}
 
 
@@ -364,6 +366,9 @@ class Interp:
                 pass
             else:
                 raise Unsupported("class body statement %s" % type(s).__name__)
+        for (qn, attr), val in CLASS_OVERRIDES.items():
+            if qn == qualname and (mod.name.endswith(qn_module.get((qn, attr), "")) ):
+                c.attrs[attr] = val
         return c
 
     def eval_static(self, e, env):
